@@ -447,9 +447,13 @@ impl<Aux> Vm<'_, Aux> {
                 Instruction::SwapLast => {
                     let b = self.stack_pop();
                     let a = self.stack_pop();
-                    // we popped two values, we know that the stack has capacity for 2 ..
-                    self.stack_push(b).unwrap();
-                    self.stack_push(a).unwrap();
+                    // we popped up to two values, but a short stack may not have capacity for 2
+                    self.stack_push(b).map_err(|err| {
+                        payload_to_error(err, *instr_ptr, &self.runtime_data.call_stack)
+                    })?;
+                    self.stack_push(a).map_err(|err| {
+                        payload_to_error(err, *instr_ptr, &self.runtime_data.call_stack)
+                    })?;
                 }
                 Instruction::ScalarNil => self.stack_push(Value::Nil).map_err(|err| {
                     payload_to_error(err, *instr_ptr, &self.runtime_data.call_stack)
